@@ -14,6 +14,7 @@ pub mod c11;
 pub mod c12;
 pub mod c17;
 pub mod c18;
+pub mod c19;
 pub mod c20;
 pub mod hostrun;
 pub mod c13;
@@ -22,7 +23,7 @@ pub mod c15;
 pub mod c16;
 
 pub fn all() -> Vec<&'static dyn Check> {
-    vec![&c01::C01, &c02::C02, &c03::C03, &c04::C04, &c05::C05, &c06::C06, &c07::C07, &c08::C08, &c09::C09, &c10::C10, &c11::C11, &c12::C12, &c17::C17, &c18::C18, &c20::C20, &c13::C13, &c14::C14, &c15::C15, &c16::C16]
+    vec![&c01::C01, &c02::C02, &c03::C03, &c04::C04, &c05::C05, &c06::C06, &c07::C07, &c08::C08, &c09::C09, &c10::C10, &c11::C11, &c12::C12, &c17::C17, &c18::C18, &c19::C19, &c20::C20, &c13::C13, &c14::C14, &c15::C15, &c16::C16]
 }
 
 pub fn find(id: &str) -> Option<&'static dyn Check> {
